@@ -87,8 +87,12 @@ pub fn c13_unit() -> Unit {
 /// Start the binary with `-s` on a free loopback port and connect to it (a busy port makes the binary give up at
 /// once, so a few ports are tried).
 fn spawn_with_socket(bin: &str, elf: &std::path::Path, extra: &[&str], salt: u64) -> Result<(std::process::Child, std::net::TcpStream), String> {
-    for attempt in 0..6u64 {
+    for attempt in 0..12u64 {
         let port = 31000 + ((std::process::id() as u64 * 13 + salt * 977 + attempt * 3331) % 20000);
+        // a port some other process listens on would make the client talk to a stranger: probe it first
+        if std::net::TcpListener::bind(("127.0.0.1", port as u16)).is_err() {
+            continue;
+        }
         let mut args: Vec<String> = vec!["-e".into(), elf.to_str().unwrap_or("").into(), "-s".into(), "-p".into(), port.to_string(), "--log".into(), "off".into()];
         args.extend(extra.iter().map(|x| x.to_string()));
         let child = std::process::Command::new(bin).args(&args).env("RUST_BACKTRACE", "0").stdout(std::process::Stdio::null()).stderr(std::process::Stdio::null()).spawn();
@@ -108,7 +112,7 @@ fn spawn_with_socket(bin: &str, elf: &std::path::Path, extra: &[&str], salt: u64
         let _ = child.kill();
         let _ = child.wait();
     }
-    Err("could not connect to the emulator's control socket on six ports".into())
+    Err("could not connect to the emulator's control socket on twelve ports".into())
 }
 
 /// C13 over the control socket: what a client receives up to the end of the connection is exactly the message
@@ -256,8 +260,12 @@ pub fn c18_unit(thorough: bool) -> Unit {
             let _ = std::fs::write(&path, &file);
             // start the binary and connect; a busy port makes the binary give up at once, so try a few ports
             let mut started: Option<(std::process::Child, std::net::TcpStream)> = None;
-            for attempt in 0..5u64 {
+            for attempt in 0..12u64 {
                 let port = 31000 + ((std::process::id() as u64 * 13 + chunk * 977 + attempt * 3331) % 20000);
+                // a port some other process listens on would make the client talk to a stranger: probe it first
+                if std::net::TcpListener::bind(("127.0.0.1", port as u16)).is_err() {
+                    continue;
+                }
                 let child = std::process::Command::new(&bin)
                     .args(["-e", path.to_str().unwrap_or(""), "-s", "-w", "-p", &port.to_string(), "--log", "off"])
                     .env("RUST_BACKTRACE", "0")
@@ -297,7 +305,7 @@ pub fn c18_unit(thorough: bool) -> Unit {
                 Some((c, s)) => (c, Some(s)),
                 None => {
                     let _ = std::fs::remove_file(&path);
-                    ctx.machinery("could not connect to the emulator's control socket on five ports".into());
+                    ctx.machinery("could not connect to the emulator's control socket on twelve ports".into());
                     return;
                 }
             };
